@@ -1,5 +1,7 @@
 #!/usr/bin/env bash
 # tools/seed_eval.sh <scratch-worktree> <n> <seeded-id> <primary-prop> [other props...]
+# VERIF_EVAL_DIR: run the checks from that checkout of /verif (a scratch git worktree of a
+# commit, so that edits in /verif meanwhile do not disturb the build); default /verif
 # 1. confirms in the scratch worktree: suite passes with the change, demo fails
 #    with it, demo passes without it  (DEMO_FLAGS = RUSTFLAGS for the demo)
 # 2. stores patch + demo + meta under /verif/seeded/<id>/
@@ -31,16 +33,16 @@ if [ "$confirmed" = yes ]; then
   git -C /repo apply "$DST/patch.diff" || { say "cannot apply to /repo"; exit 2; }
   for p in "${PROPS[@]}"; do
     log="/tmp/seed-$ID-$p.log"
-    ( cd /verif && timeout 1800 ./check "$p" quick ) >"$log" 2>&1; rc=$?
+    ( cd "${VERIF_EVAL_DIR:-/verif}" && timeout 1800 ./check "$p" quick ) >"$log" 2>&1; rc=$?
     first=$(grep -m1 -A1 "^VIOLATION" "$log" | tr '\n' ' ' | cut -c1-500)
     say "check $p quick -> exit $rc  $first"
     results="$results$p:$rc;"
     mkdir -p "$DST/replays"; for f in $(grep -o "replay=[^ ]*" "$log" | cut -d= -f2 | sort -u); do [ -f "$f" ] && cp "$f" "$DST/replays/" ; done
   done
   git -C /repo checkout -q -- .
-  rm -f /verif/replays/*.json
+  rm -f "${VERIF_EVAL_DIR:-/verif}"/replays/*.json
   # the evidence files were just rewritten by runs against a broken tree
-  git -C /verif checkout -q -- evidence 2>/dev/null
+  git -C "${VERIF_EVAL_DIR:-/verif}" checkout -q -- evidence 2>/dev/null
 fi
 python3 - "$DST" "$ID" "$confirmed" "$suite_ok" "$with_rc" "$without_rc" "$results" "${DEMO_FLAGS:-}" "${PROPS[0]}" <<'PY'
 import json,sys,os
